@@ -68,6 +68,11 @@ T = {
  'c18z': ('two threads on the MPFR exponent-probe path at once (fixed-point contexts, %, floor of a rational)', 'C18 A3 (exc:SystemError)'),
  'c19x': ('unroll_for PEEL, outer loop of static length with a leftover and a loop nested in it, where=None', 'C19 all-sites-differs-from-one-at-a-time (needed that rule)'),
  'c19y': ('a within= cursor inside one arm of an if/else with a candidate at the same indices of the other arm', 'C19 within-not-the-sites-at-or-beneath'),
+ 'c17q': ('an operand of more than 1024 significant digits with digits far below the rounding position, k >= 2', 'C17 count-mismatch (needed the long_tail offsets)'),
+ 'c18v': ('a callee that writes its list parameter only through an alias / projected row / loop variable, called with a list whose leaves are all FPy values', 'C18 A1-argument-modified on deep'),
+ 'c18aa': ('two threads compiling at the same moment two derived programs that embed different values under the same generated name', 'C18 A3/A3m/H1 on derived copies of q_a16 / q_b8 (needed the twins and the derive stampede; about one derive stampede in twelve: thorough tier)'),
+ 'c19z': ('unroll_while on a loop whose condition holds a call or rule match, then an expression-sited listing or aim', 'C19 rewrite-outside-named-site / site-also-refused'),
+ 'c19aa': ('a call of an FPy function inside an arm of a conditional expression', 'C19 candidate-neither-site-nor-refusal (needed the root exprs_a and an independent enumeration of calls)'),
 }
 base = os.path.join(os.path.dirname(os.path.dirname(os.path.abspath(__file__))), 'seeded')
 for mid, (needs, caught) in T.items():
